@@ -31,6 +31,8 @@ streaming writer x depth x gulp, with stale junk at the output path beforehand:
 
 Correspondence: the executable model (at_crash / on_return / open_nsamples / read_block_file) under vm_compute on the same
 (stale content, header bytes, block bytes, truncation lengths) versus what the implementation left on disk / read back.
+The two states before the header write (path untouched until the open; empty after the truncating open) are observed around
+FileWriter.__init__ and compared with at_crash ... 0 / 1 as well.
 
 At-scale search: scale(R) at the end of this file (blocks around 2**16 .. 2**24 elements at every depth, 1e5 .. 1.7e7 samples, gulps
 16384 / non-dividing / above 65536, 70000 blocks, 450 outputs in batches of 200, 4096 channels; same oracle with byte counts and crc32)."""
@@ -56,7 +58,9 @@ JUNK = bytes([0xEE, 0x48, 0x45, 0x41]) * 300     # stale content at the output p
 
 
 class Tap:
-    """wraps FileWriter.write/cwrite and FilReader.read_plan; logs ('W'|'C', path, payload bytes, disk bytes after) and ('Y',)"""
+    """wraps FileWriter.write/cwrite and FilReader.read_plan; logs ('W'|'C', path, payload bytes, disk bytes after) and ('Y',);
+    wraps FileWriter.__init__ too: ('O', path, bytes at the path before the open or None, bytes at the path after the open) --
+    the two states of the trace that lie before the header write"""
 
     def __init__(self, scratch):
         from sigpyproc.io import fileio
@@ -65,6 +69,7 @@ class Tap:
         self.ev = []
         self.scratch = scratch
         self.ow, self.oc, self.orp = fileio.FileWriter.write, fileio.FileWriter.cwrite, FilReader.read_plan
+        self.oi = fileio.FileWriter.__init__
         tap = self
 
         def w(self_, bo):
@@ -73,6 +78,20 @@ class Tap:
             with open(p, "rb") as f:
                 disk = f.read()
             tap.ev.append(("W", p, bytes(bo), disk))
+            return r
+
+        def i(self_, *a, **k):
+            p = a[0] if a else k.get("file")
+            if p == tap.scratch or not isinstance(p, (str, os.PathLike)):            # the observer's own encoder file
+                return tap.oi(self_, *a, **k)
+            pre = None
+            if os.path.exists(p):
+                with open(p, "rb") as f:
+                    pre = f.read()
+            r = tap.oi(self_, *a, **k)
+            with open(p, "rb") as f:
+                post = f.read()
+            tap.ev.append(("O", os.fspath(p), pre, post))
             return r
 
         def c(self_, arr):
@@ -96,17 +115,19 @@ class Tap:
                 tap.ev.append(("Y",))
                 yield item
 
-        self.w, self.c, self.rp = w, c, rp
+        self.w, self.c, self.rp, self.i = w, c, rp, i
 
     def __enter__(self):
         self.fileio.FileWriter.write = self.w
         self.fileio.FileWriter.cwrite = self.c
+        self.fileio.FileWriter.__init__ = self.i
         self.FilReader.read_plan = self.rp
         return self
 
     def __exit__(self, *a):
         self.fileio.FileWriter.write = self.ow
         self.fileio.FileWriter.cwrite = self.oc
+        self.fileio.FileWriter.__init__ = self.oi
         self.FilReader.read_plan = self.orp
 
 
@@ -368,7 +389,7 @@ def run(R: vlib.Run):
                 # the call returned: the window runs to the end of the call, or to the header write that starts the next batch --
                 # a block of the plan that goes by AFTER the last write to this output is a block that never reached it
                 end = next((i for i in range(hi + 1, len(ev)) if ev[i][0] == "W"), len(ev))
-            pat = "".join("Y" if e[0] == "Y" else ("C" if e[1] == o else "") for e in ev[lo + 1:end])
+            pat = "".join("Y" if e[0] == "Y" else ("C" if e[0] in "WC" and e[1] == o else "") for e in ev[lo + 1:end])
             okpat = (pat in ("C", "")) if site in ONESHOT else re.fullmatch(r"(YC)*", pat) is not None
             if not okpat:
                 R.fail(f"{site}-not-one-block-per-gulp", "blocks do not reach the output one per block of the read plan, in order",
@@ -415,8 +436,21 @@ def run(R: vlib.Run):
             hdrlen, nbits, nch, ks, reads = sw
             if hdrlen != len(h):
                 R.fail(f"{site}-header-not-first", "header length seen by the reader differs from what prep_outfile wrote", dict(c, hdrlen=hdrlen, wrote=len(h)))
-            if full_sweep and len(wcases) < 160 and site != "to_spec":      # (to_spec has no site descriptor in Gen/C20Sites.v)
-                wcases.append((site, list(JUNK[:len(final) + 5]), list(h), [list(b) for b in blocks], [list(e[3]) for e in evs], list(final), exc is None))
+            if full_sweep and len(wcases) < 160:
+                # the two states BEFORE the header write, as observed around FileWriter.__init__ (the last open of this path before its header):
+                # at the path before the open / after the open.  (compared over the same leading part as `old`; [256] = no open seen)
+                ops = [e for e in ev[:idx[0]] if e[0] == "O" and e[1] == o]
+                cap = len(final) + 5
+                if ops:
+                    obs0 = list((ops[-1][2] or b"")[:cap])
+                    obs1 = list(ops[-1][3][:cap])
+                    if ops[-1][2] != JUNK:
+                        R.disagree("the output path did not hold what the harness put there when the writer opened it (removed or rewritten before the open; the model leaves it untouched until then)",
+                                   dict(c, held=None if ops[-1][2] is None else len(ops[-1][2]), put=len(JUNK)))
+                else:
+                    obs0 = obs1 = [256]
+                    R.disagree("no FileWriter was constructed on the output path before its header write (the model opens it through FileWriter.__init__)", c)
+                wcases.append((site, list(JUNK[:cap]), list(h), [list(b) for b in blocks], [list(e[3]) for e in evs], list(final), exc is None, obs0, obs1))
                 pick = reads if len(reads) <= 6 else [reads[i] for i in sorted(set([0, 1, len(reads) // 2, len(reads) - 2, len(reads) - 1]))]
                 rcases.append((list(h), list(final[hdrlen:]), nbits, nch, ks, [(L, k, list(b)) for L, k, b in pick]))
 
@@ -498,7 +532,7 @@ def run(R: vlib.Run):
                     ]
                     if cs >= 1 and cs + sel <= nch:
                         out.append(("extract_bands", f"chanstart{cs};{sel} of {nch}", [f"{base}_sub00.fil"], lambda: fil.extract_bands(cs, sel, sel, base, **kw), N))
-                    # FourierSeries.to_spec: the same prep_outfile + cwrite shape as to_tim (oracle only: it has no site descriptor in the proof)
+                    # FourierSeries.to_spec: the same prep_outfile + cwrite shape as to_tim (site_to_spec in Gen/C20Sites.v; in the correspondence like the others)
                     try:
                         fser = fil.read_chan(0, quiet=True).rfft()
                         out.append(("to_spec", "", [ospec], lambda: fser.to_spec(ospec), 2 * int(fser.data.size)))
@@ -592,15 +626,16 @@ def run(R: vlib.Run):
         for si in range(0, len(wcases), per):
             sh = wcases[si:si + per]
             lines = list(head)
-            lines.append("Definition cases : list (site * list Z * list Z * list (list Z) * list (list Z) * list Z * bool) := [")
-            lines.append(";\n".join(f"(site_{s}, {vlib.zlist(old)}, {vlib.zlist(h)}, {vlib.zlistlist(bs) if bs else '[]'}, {vlib.zlistlist(snaps)}, {vlib.zlist(fin)}, {'true' if ret else 'false'})"
-                                    for s, old, h, bs, snaps, fin, ret in sh))
+            lines.append("Definition cases : list (site * list Z * list Z * list (list Z) * list (list Z) * list Z * bool * list Z * list Z) := [")
+            lines.append(";\n".join(f"(site_{s}, {vlib.zlist(old)}, {vlib.zlist(h)}, {vlib.zlistlist(bs) if bs else '[]'}, {vlib.zlistlist(snaps)}, {vlib.zlist(fin)}, {'true' if ret else 'false'}, {vlib.zlist(o0)}, {vlib.zlist(o1_)})"
+                                    for s, old, h, bs, snaps, fin, ret, o0, o1_ in sh))
             lines.append("].")
-            lines.append("""Definition ok (c : site * list Z * list Z * list (list Z) * list (list Z) * list Z * bool) : bool :=
-  let '(s, old, h, bs, snaps, fin, ret) := c in
+            lines.append("""Definition ok (c : site * list Z * list Z * list (list Z) * list (list Z) * list Z * bool * list Z * list Z) : bool :=
+  let '(s, old, h, bs, snaps, fin, ret, obs0, obs1) := c in
   lle (map (fun j => disk (at_crash s old h bs (2 + j))) (seq 0 (S (length bs)))) snaps
   && forallb (fun j => match pend (at_crash s old h bs (2 + j)) with [] => true | _ => false end) (seq 0 (S (length bs)))
   && list_eqb (disk (at_crash s old h bs 0)) old && list_eqb (disk (at_crash s old h bs 1)) []
+  && list_eqb (disk (at_crash s old h bs 0)) obs0 && list_eqb (disk (at_crash s old h bs 1)) obs1
   && (negb ret || list_eqb (disk (on_return s old h bs)) fin).
 Definition idx := map fst (filter (fun p => negb (ok (snd p))) (combine (seq 0 (length cases)) cases)).
 Eval vm_compute in (length cases, idx).""")
@@ -612,9 +647,10 @@ Eval vm_compute in (length cases, idx).""")
             nums = [int(v) for v in re.findall(r"(\d+)%nat", vals[0])]
             R.extra_cov["traces_validated_against_impl"] = R.extra_cov.get("traces_validated_against_impl", 0) + (nums[0] if nums else 0)
             for bi in nums[1:][:4]:
-                s, old, h, bs, snaps, fin, ret = sh[bi]
+                s, old, h, bs, snaps, fin, ret, o0, o1_ = sh[bi]
                 R.disagree("writer model and implementation differ on what is on disk at the crash points",
-                           {"site": s, "header_len": len(h), "block_lens": [len(b) for b in bs], "snap_lens": [len(x) for x in snaps], "final_len": len(fin)})
+                           {"site": s, "header_len": len(h), "block_lens": [len(b) for b in bs], "snap_lens": [len(x) for x in snaps], "final_len": len(fin),
+                            "before_open_len": len(o0), "after_open_len": len(o1_)})
         nread = 0
         for si in range(0, len(rcases), per):
             sh = rcases[si:si + per]
